@@ -29,6 +29,8 @@ fn main() {
         "overflow" => engine_overflow(&args),
         #[cfg(feature = "full")]
         "serde" => engine_serde(&args),
+        "ovwide" => overflow::wide_child(args.u64("entry", 0) as usize, args.u64("start", 2) as usize),
+        "wide" => engine_wide(&args),
         "ovrace" => overflow::race_child(args.u64("entry", 0) as usize, args.u64("phase", 9) as u8, args.u64("start", isize::MAX as u64) as usize),
         "ovchild" => overflow::child(args.u64("entry", 0) as usize, args.u64("start", 1) as usize),
         "allocchild" => {
@@ -596,6 +598,12 @@ fn engine_cmp(args: &Args) -> i32 {
             run(cmp::class_eq(vals, &mut st), "eq");
         }
     }
+    if class == "all" || class == "dyn" {
+        if let Err(v) = cmp::class_dyn(&mut st) {
+            emit_violation(&v, "cmp", seed, "dyn", &[]);
+            nviol += 1;
+        }
+    }
     st.sample.push(format!("{:?} vs {:?} compared through Arc<HeaderSlice>, with recorded length, ThinArc, protected Arc, Arc<[T]>, Arc<T>, OffsetArc, ArcBorrow, ArcUnion", dom[0], dom[dom.len() - 1]));
     println!(
         "@@{{\"t\":\"stats\",\"engine\":\"cmp\",\"counts\":{},\"sets\":{{\"cmp_values\":{}}},\"exhaustive_domain\":{},\"sample\":{}}}",
@@ -739,6 +747,33 @@ fn engine_uninit(args: &Args) -> i32 {
         shadow::active(),
         shadow::checked_frees(),
         jlist(&st.sample)
+    );
+    if nviol > 0 {
+        1
+    } else {
+        0
+    }
+}
+
+fn engine_wide(args: &Args) -> i32 {
+    let seed = args.u64("seed", 1);
+    let mut st = overflow::OStats::new();
+    let mut nviol = 0;
+    for api in 0..overflow::WIDE_APIS.len() {
+        if let Err(v) = overflow::wide_parent(api, &mut st) {
+            if v.oracle == "harness" {
+                eprintln!("harness problem: {}", v.msg);
+                return 3;
+            }
+            emit_violation(&v, "wide", seed, &format!("api={}", api), &[]);
+            nviol += 1;
+        }
+    }
+    println!(
+        "@@{{\"t\":\"stats\",\"engine\":\"wide\",\"counts\":{},\"sets\":{{\"wide_cases\":{}}},\"hooked\":{},\"sample\":[]}}",
+        st.counts.json(),
+        jset(&st.cases),
+        cfg!(triomphe_verif)
     );
     if nviol > 0 {
         1
